@@ -17,6 +17,10 @@ def queries(tier):
                     unwind_default=17,
                     bounds="source value: all 2^w values of %s; target in {c,b,y,n,q,i,u,x,t,l}" % ty,
                     outside="vector targets"))
+    for (kind, nm) in ((1, "float64"), (2, "float32"), (3, "int64"), (4, "uint64")):
+        qs.append(Q("to_float_" + nm, "C07/float.c", units=CONV_UNITS + ["mptcore/convert/data_convert_float.c"], harness_defines={"KIND": kind},
+                    unwind_default=10, bounds="source %s: every value (incl. NaN, infinities); target f or d" % nm,
+                    outside="long double (not compiled in this tree); reading 'denotes the same number' for narrowing as: correctly rounded, never finite -> infinity"))
     TXT_UNITS = ["mptcore/convert/%s.c" % f for f in ("convert_string", "convert_number", "convert_int", "cdouble", "cfloat", "cldouble", "convert_key", "valfmt_get")] + [
         "mptcore/types/type_int.c"]
     for fmt in "bynqiuxtl":
